@@ -203,6 +203,11 @@ impl NamespaceActor {
             } else if new_flag > 0 {
                 let mut new_value = v.as_ref().to_owned();
                 new_value.flag = new_flag;
+                if from_flag == NamespaceFromFlags::USER.bits() {
+                    // 用户命名空间已删除,剩下的弱引用命名空间与set_weak_namespace创建的一致(名称为id);
+                    // 快照不记录弱引用命名空间,否则重启前后名称不一致
+                    new_value.namespace_name = namespace_id.as_str().to_owned();
+                }
                 self.data.insert(namespace_id, Arc::new(new_value));
             } else {
                 //删除
